@@ -8,6 +8,7 @@
 #include <sstream>
 #ifdef MINISTL_NATIVE
 extern "C" void __vf_model_bound(void) {}
+extern "C" void __vf_check_readable(const void*, size_t) {}
 #endif
 namespace std {
 #ifndef MINISTL_NATIVE
